@@ -243,6 +243,16 @@ def gen_fuzz(ctx, seeds):
         add("fz pem %d %s" % (n + 80, hexs(text.replace(b"\n", b"\r\n"))), "fz:pem:crlf")
         add("fz pem %d %s" % (n + 80, hexs(text[:-1])), "fz:pem:no-final-newline")
         add("fz pem %d %s" % (4096, hexs(b"-----BEGIN CERTIFICATE-----\n" + b64[:20] + b"A" * 200 + b"\n-----END CERTIFICATE-----\n")), "fz:pem:long-line")
+    # password-encrypted SM9 keys: every loader x every kind of key, right / wrong password, mutated
+    for kind in ("smsk", "sk", "emsk", "ek"):
+        s = seeds.get("sm9p8" + kind)
+        if not s:
+            continue
+        for loader in ("smsk", "sk", "emsk", "ek"):
+            for pw in ("pw", "no"):
+                add("fz sm9p8 %s %s %s" % (loader, pw, hexs(s)), "fz:sm9p8:%s-into-%s:%s" % (kind, loader, "right-password" if pw == "pw" else "wrong-password"))
+            for mkind, m in structured_mutations(r, s, 24 * K):
+                add("fz sm9p8 %s pw %s" % (loader, hexs(m)), "fz:sm9p8:%s-into-%s:%s" % (kind, loader, mkind))
     for t in (0, 5, 48, 0x7f, 0x80, 0x81, 0x9f, 0xa0, 0xa3, 0xbf, 0xc0, 0xff, 256):
         add("fz tagname %d" % t, "fz:tagname:%s" % ("context" if 0x80 <= t < 0xc0 else "other"))
     return cases
@@ -309,9 +319,66 @@ def gen_capacity(ctx):
     return cases
 
 
+
+# ------------------------------------------------------------------------------------ part D: failure-then-cleanup / retry
+BAD_BUNDLES = ["missing", "empty", "garbage", "binary", "trunc2", "cutline", "garb2", "noend"]
+
+
+def gen_sequences(ctx):
+    """(line, cell, predicate): loaders / initialisers on caller-owned objects fed a file that fails at some stage,
+    followed by cleanup, by a retry with a good file on the same object, or by the next call of an ordinary caller"""
+    cases = []
+    def add(line, cell, must_retry_ok=True):
+        cases.append((line, cell, must_retry_ok))
+    for bad in BAD_BUNDLES + ["good", "many", "first"]:
+        add("seq certs_new %s good" % bad, "seq:certs_new:%s" % ("good" if bad in ("good", "many", "first") else "fails"))
+        add("seq cert_new %s cert" % bad, "seq:cert_new:%s" % ("good" if bad in ("good", "many", "first", "trunc2", "cutline", "garb2", "noend") else "fails"))
+    for bad in ("missing", "empty", "garbage", "reqtrunc", "cert", "req"):
+        add("seq req_new %s req" % bad, "seq:req_new:%s" % ("good" if bad == "req" else "fails"))
+    for bad in BAD_BUNDLES + ["good"]:
+        for after in ("cleanup", "retry", "init", "retry+init"):
+            add("seq ctx ca %s x %s" % (bad, after), "seq:ctx-ca:%s:%s" % ("good" if bad == "good" else "fails", after), bad != "good")
+    for chain in ("good", "trunc2", "garbage", "missing", "empty"):
+        for key, cls in (("key1", "matching"), ("key0", "other-key"), ("keytrunc", "truncated-key"), ("missing", "no-key-file"), ("garbage", "garbage-key")):
+            for after in ("cleanup", "retry", "init", "wrongpass+retry"):
+                if chain != "good" and key != "key1":
+                    continue
+                good = chain == "good" and key == "key1" and "wrongpass" not in after
+                add("seq ctx cert %s %s %s" % (chain, key, after), "seq:ctx-cert:%s:%s" % ("good" if good else "chain-" + chain + ":" + cls, after.replace("wrongpass+", "wrongpass-")), not good)
+    for chain in ("good", "first", "trunc2", "garbage"):
+        for key in ("key1", "key0", "keytrunc"):
+            for after in ("cleanup", "retry", "init"):
+                good = chain == "good" and key == "key1"
+                add("seq ctx tlcp %s %s %s" % (chain, key, after), "seq:ctx-tlcp:%s:%s" % ("good" if good else "fails", after), not good)
+    return cases
+
+
+
+# ------------------------------------------------------------------------------------ part E: out-parameters fully determined
+DET_KINDS = {"cert": ["cert", "cacert", "certnoext"], "crl": ["crl"], "req": ["req"], "cms": ["cmsdata", "cmssigned", "cmsenv", "cmsenc", "cmssignenv"],
+             "sm9smpk": ["sm9smpk"], "sm9smsk": ["sm9smsk"], "sm9sk": ["sm9sk"], "sm9empk": ["sm9empk"], "sm9emsk": ["sm9emsk"], "sm9ek": ["sm9ek"],
+             "sm2pub": ["sm2pub"], "sm2priv": ["sm2priv"]}
+
+
+def gen_determined(ctx, seeds):
+    r = ctx.rng
+    K = 4 if ctx.tier == "thorough" else 1
+    cases = []
+    for kind, mks in DET_KINDS.items():
+        for mk in mks:
+            s = seeds.get(mk)
+            if not s:
+                continue
+            cases.append(("det %s %s" % (kind, hexs(s)), "det:%s:%s:valid" % (kind, mk)))
+            for mkind, m in structured_mutations(r, s, (60 if len(s) < 700 else 100) * K):
+                cases.append(("det %s %s" % (kind, hexs(m)), "det:%s:%s:%s" % (kind, mk, mkind)))
+    return cases
+
+
 def locate(exe, line):
     """re-run one faulting op alone and name the first library frame of the sanitizer report"""
     e = dict(os.environ)
+    e["C06_TMP"] = os.path.join(core.BUILD, "c06_tmp")
     e["ASAN_OPTIONS"] = "detect_leaks=0:abort_on_error=0:allocator_may_return_null=1"
     e["UBSAN_OPTIONS"] = "print_stacktrace=1"
     try:
@@ -348,7 +415,7 @@ def run(ctx):
     nbad = compare(ctx, casesA, iout, mout, "asan", ierr, out_of_scope=("bit_empty", "oid_first", "oid_lead", "utf8", "multiple"))
     ctx.notes.append("modelled part: %d cases, %d disagreements" % (len(casesA), nbad))
     # ---- part B
-    mk = sorted({m for ms in FUZZ_KINDS.values() for m in ms})
+    mk = sorted({m for ms in FUZZ_KINDS.values() for m in ms} | {m for ms in DET_KINDS.values() for m in ms} | {"sm9p8smsk", "sm9p8sk", "sm9p8emsk", "sm9p8ek"})
     sout, _ = core.run_lines(fz, ["mk " + m for m in mk], shards=1)
     seeds = {}
     for m, o in zip(mk, sout):
@@ -407,7 +474,60 @@ def run(ctx):
         ctx.violation(key, text, {"kind": "failing-input", "op": line, "impl": o, "expected": exp if isinstance(exp, str) else "predicate in props/C06/run.py gen_capacity",
                                   "harness": "props/C06/harness.c", "stderr": err}, found_input=True)
     ctx.notes.append("capacity part: %d cases, %d bad" % (len(casesC), nbadc))
-    return finish(ctx, len(casesA), len(casesB), len(casesC))
+    # ---- part D: failure-then-cleanup / failure-then-retry sequences on caller-owned objects
+    casesD = gen_sequences(ctx)
+    tmpd = os.path.join(core.BUILD, "c06_tmp")
+    os.makedirs(tmpd, exist_ok=True)
+    dout, _ = core.run_lines(fz, [c[0] for c in casesD], timeout=900, shards=8, env={"C06_TMP": tmpd})
+    nbadd = 0
+    for (line, cell, retry_ok), o in zip(casesD, dout):
+        ctx.cov["evaluations"] += 1
+        ctx.count("seq:" + line.split(" ")[1])
+        problem = None
+        if o.startswith("FAULT"):
+            where, err = locate(fz, line)
+            problem, key = "aborts: " + where, "seq:" + where
+        elif "STALE" in o:
+            err = ""
+            problem, key = "leaves a stale %s in the caller's object after a failed call" % ("pointer" if "STALE-POINTER" in o else "length"), "seq:stale-" + ("pointer" if "STALE-POINTER" in o else "length")
+        elif "retry" in line and retry_ok and " r2=1" not in o:
+            err = ""
+            problem, key = "a retry with a good file on the same object is refused", cell + ":retry-refused"
+        elif not re.match(r"r1=-?\d", o):
+            err = ""
+            problem, key = "unexpected answer", cell
+        if problem is None:
+            ctx.cell(cell + (":ok" if o.startswith("r1=1") else ":refused"))
+            continue
+        nbadd += 1
+        ctx.violation(key, "sequence `%s` (%s) %s: `%s`" % (line, cell, problem, o[:80]),
+                      {"kind": "failing-input", "op": line, "impl": o, "expected": "error return, object left clean, cleanup and retry work", "harness": "props/C06/harness.c",
+                       "env": "C06_TMP=<build dir>/c06_tmp", "stderr": err}, found_input=True)
+    import shutil
+    shutil.rmtree(tmpd, ignore_errors=True)
+    ctx.notes.append("sequence part: %d cases, %d bad" % (len(casesD), nbadd))
+    # ---- part E: every out-parameter / struct field is written on success (two poison patterns must give the same result)
+    casesE = gen_determined(ctx, seeds)
+    eout, _ = core.run_lines(fz, [c[0] for c in casesE], timeout=600)
+    nbade = 0
+    for (line, cell), o in zip(casesE, eout):
+        ctx.cov["evaluations"] += 1
+        ctx.count("det:" + line.split(" ")[1])
+        if o.startswith("det") and o.endswith(" DETERMINED"):
+            ctx.cell(cell + (":ok" if "=1" in o else ":refused"))
+            continue
+        nbade += 1
+        if o.startswith("FAULT"):
+            where, err = locate(fz, line)
+            key, text = "det:" + where, "aborts: " + where
+        else:
+            m = re.search(r" (\w+):(UNDETERMINED|RET-DIFFERS)", o)
+            err = ""
+            key, text = "det:%s:%s" % (line.split(" ")[1], m.group(1) if m else "?"), "leaves an out-parameter / field unset on success (result depends on what the target held before): " + o[:120]
+        ctx.violation(key, "decode-into-dirty-target `%s...` %s" % (line[:60], text),
+                      {"kind": "failing-input", "op": line, "impl": o, "expected": "identical results for targets pre-filled with 0x5a.. and 0xa5..", "harness": "props/C06/harness.c", "stderr": err}, found_input=True)
+    ctx.notes.append("determined part: %d cases, %d bad" % (len(casesE), nbade))
+    return finish(ctx, len(casesA), len(casesB), len(casesC), len(casesD), len(casesE))
 
 
 def replay(path):
@@ -418,7 +538,8 @@ def replay(path):
         print("replay names a proof obligation / relation, not an input:", json.dumps(rp)[:1000]); return 0
     if rp.get("harness") == "props/C06/harness.c":
         exe, log = core.build_harness("C06", "asan")
-        out, err = core.run_lines(exe, [op], shards=1)
+        tmpd = os.path.join(core.BUILD, "c06_tmp"); os.makedirs(tmpd, exist_ok=True)
+        out, err = core.run_lines(exe, [op], shards=1, env={"C06_TMP": tmpd})
         print("op:    ", op[:400]); print("impl:  ", out[0]); print("stderr:", err[-2500:])
         print("FAULT" if out[0].startswith("FAULT") else "no fault")
         return 0
@@ -433,14 +554,14 @@ def replay(path):
     return 0
 
 
-def finish(ctx, na, nb, nc=0):
+def finish(ctx, na, nb, nc=0, nd=0, ne=0):
     modelled = ["lenD", "typD", "netD", "anytD", "anyD", "boolD", "intD", "i32D", "bstrD", "boctD", "bitsD", "nullD", "oidD", "oidderD",
                 "seqintD", "strD/isstr utf8|prn|ia5", "timeD", "sigD", "hexD", "b64blkD", "b64D",
                 "pkalgD", "encalgD", "kdfpD", "p8eD", "ctD", "pubiD", "privD", "p8D", "pemR"]
     fuzz_only = ["x509_cert_from_der/print/get_details/check/verify_by_ca_cert", "x509_certs_get_count/print/verify", "x509_crl_from_der/print/check/find_revoked",
                  "x509_req_from_der/print/verify", "cms_print/content_info_from_der/verify/decrypt", "sm2_private_key_info_from_der/print, pkcs8_enced_private_key_info_from_der/print, decrypt_from_der",
                  "sm2_private_key_from_der/print", "sm2_public_key_info_from_der/print", "sm2_ciphertext_from_der/print, sm2_decrypt", "sm2_signature_print, sm2_verify",
-                 "sm2_z256_point_from_octets", "sm9_signature_from_der/print", "sm9_ciphertext_from_der/print",
+                 "sm2_z256_point_from_octets", "sm9_signature_from_der/print", "sm9_ciphertext_from_der/print", "sm9 *_key_info_decrypt_from_der (4 loaders x 4 kinds of encrypted key)",
                  "tls_record_print, tlcp_record_print, tls13_record_print, tls_record_get_handshake_* (12 getters), tls_process_*_hello_exts", "pem_read", "asn1_tag_name"]
     ctx.assumptions = [
         "Part A: decoder models take the bytes from the C pointer to the end of the buffer and identify *inlen with that length; Fault = read/write outside; the theorems of Props/Properties_C06.v are about the Fixed model",
@@ -451,7 +572,9 @@ def finish(ctx, na, nb, nc=0):
                       rule="part A: per modelled decoder, valid objects + truncation at (sampled) every byte + edits of every TLV length octet / tag + insertions + byte noise + random streams + element counts at capacity-1/capacity/capacity+1; a cell = (op, mutation class, ok|ERR|ABSENT|FAULT) on which implementation and Fixed model agreed.  part B: per fuzz kind and seed object the same mutation classes (TLS records re-framed as tls_record_recv guarantees); a cell = (kind, seed, mutation class, ok|err) that ran without a fault",
                       trusted=core.TRUSTED_COMMON + ["Coq files: Codec/Der.v Hex.v Base64.v Time.v Pkcs.v Pem.v (models), Codec/DerProofs.v SafetyProofs.v HexProofs.v Base64Proofs.v Base64Safety.v TimeProofs.v PkcsProofs.v PkcsOpen.v PemProofs.v, Props/Properties_C06.v",
                                                      "props/C14/harness.c + props/C14/driver.ml (modelled ops), props/C06/harness.c (fuzz-only ops), vlib/codec_common.py"],
-                      extra={"modelled_ops": modelled, "fuzz_only_ops": fuzz_only, "modelled_cases": na, "fuzz_only_cases": nb, "capacity_cases": nc,
+                      extra={"modelled_ops": modelled, "fuzz_only_ops": fuzz_only, "modelled_cases": na, "fuzz_only_cases": nb, "capacity_cases": nc, "sequence_cases": nd, "determined_cases": ne,
+                             "determined_ops": ["x509_cert_get_details + x509_ext_from_der + basic_constraints / authority_key_identifier", "x509_crl_get_details", "x509_req_get_details", "cms_content_info / signed_data / signer_info / enveloped_data / recipient_info / enced_content_info _from_der", "sm9 sign/enc master key, master public key, user key _from_der", "sm2_public_key_info_from_der, sm2_private_key_from_der"],
+                             "sequence_ops": ["x509_cert_new_from_file / x509_certs_new_from_file / x509_req_new_from_file (fail, owner cleanup, retry)", "tls_ctx_set_ca_certificates / tls_ctx_set_certificate_and_key / tls_ctx_set_tlcp_server_certificate_and_keys x {cleanup, retry, tls_init} + double tls_ctx_cleanup"],
                              "capacity_ops": ["cms_recipient_info_decrypt_from_der(maxlen)", "cms_enveloped_data_decrypt_from_der (key[32])", "sm2_decrypt (exact plaintext buffer)",
                                               "sm2_decrypt_update / sm2_encrypt_update (sums against 366 / 255)", "x509_cert_from_pem / x509_certs_from_pem / x509_req_from_pem / cms_from_pem (maxlen)",
                                               "tls_authorities_from_certs(maxlen)", "tls_process_client_hello_exts(maxlen)", "cms_digest_algors_from_der(max)", "x509_ext_key_usage_from_der(max_cnt)", "tls_record_get_handshake_certificate / tls13_process_certificate_list (TLS_MAX_CERTIFICATES_SIZE)"],
